@@ -137,6 +137,44 @@ def entry_points():
     add("tables: is_empty/iter_values", lambda d: [(t.is_empty(), list(t.iter_values()), t.get_value((0, 0)), t.get_cell((1, 1)), t.is_row_empty(0), t.is_column_empty(0)) for t in _tables(d)])
     add("tables: get_values(filters)", lambda d: [(t.get_values(cell_type="all"), t.get_values(get_type=True), t.get_values(flat=True), t.get_cells(cell_type="float", flat=True)) for t in _tables(d)])
     add("tables: named ranges/width", lambda d: [(t.get_named_ranges(), t.width, t.height, t.style, t.printable, t.print_ranges) for t in _tables(d)])
+    # area reads starting in every column (a slice may begin on the first, a middle or the last cell of a run)
+    def area_sweep(d):
+        out = []
+        for t in _tables(d):
+            w, h = t.size
+            for x in range(min(w, 12)):
+                for z in (x, x + 2):
+                    out.append((t.get_values((x, 0, z, min(h, 6))), t.get_cells((x, 0, z, min(h, 2))), list(t.iter_values((x, 0, z, min(h, 3))))))
+            for r in t.get_rows()[:4]:
+                for x in range(min(r.width, 12)):
+                    out.append((r.get_values((x, x + 1)), r.get_cells((x, x + 2))))
+        return out
+
+    add("tables: area sweep", area_sweep)
+
+    # the same questions to ONE Table object in two orders: the answer to a question must not depend on
+    # which questions came before it
+    def interleaved(d):
+        out = []
+        for t in _tables(d):
+            h = t.height
+            ys = list(range(min(h, 10)))
+            up = {y: (t.get_row_values(y), t.get_value((0, y)), t.is_row_empty(y), t.get_row(y).get_values()) for y in ys}
+            down = {y: (t.get_row_values(y), t.get_value((0, y)), t.is_row_empty(y), t.get_row(y).get_values()) for y in reversed(ys)}
+            again = {y: (t.get_row_values(y), t.get_value((0, y)), t.is_row_empty(y), t.get_row(y).get_values()) for y in ys[1::2] + ys[0::2]}
+            if not (_ser(up) == _ser(down) == _ser(again)):
+                bad = [y for y in ys if not (_ser(up[y]) == _ser(down[y]) == _ser(again[y]))]
+                return {"__inconsistent__": f"table {t.name!r}: the answers for rows {bad[:4]} depend on the order in which the rows were asked for"}
+            out.append(up)
+        return out
+
+    add("tables: same reads, other order", interleaved)
+    # what lies between paired marks
+    add("reference marks: referenced", lambda d: [(r.name, r.referenced_text(), r.get_referenced(), r.get_referenced(as_list=True), r.get_referenced(as_xml=True), r.get_referenced(no_header=True, clean=False))
+                                                  for r in d.body.get_reference_mark_starts()[:6]])
+    add("annotations: annotated", lambda d: [(a.name, a.get_annotated(), a.get_annotated(as_text=True), a.get_annotated(no_header=True, clean=True)) for a in d.body.get_annotations()[:6]])
+    add("tracked changes: inserted/deleted", lambda d: [(c.get_id(), c.get_change_info(), c.get_inserted(), c.get_inserted(as_text=True), c.get_deleted(), c.get_deleted(as_text=True))
+                                                        for c in (d.body.get_tracked_changes().get_changed_regions() if d.body.get_tracked_changes() is not None else [])[:8]])
     add("rows/cells: values", lambda d: [[(r.get_values(), r.width, r.is_empty(), [c.get_value() for c in r.get_cells()][:5]) for r in t.get_rows()[:5]] for t in _tables(d)])
     return E
 
